@@ -453,6 +453,9 @@ func (s *session) visitNode(sprint *sprint, run flows.Run, node flows.Node, trig
 		if err := trigger.InitializeRun(run, logEvent); err != nil {
 			return step, nil, "", nil
 		}
+
+		// trigger may have changed the contact (e.g. last seen on) so ensure groups are still correct
+		s.ensureQueryBasedGroups(logEvent)
 	}
 
 	// execute our node's actions
